@@ -83,20 +83,20 @@ def _stored_partial_retry(case):
 
 @known_predicate('C09-python-builtin-name')
 def _builtin_name(case):
-    # a function pycel does not implement whose compiled (lower-case) name is a Python builtin — TYPE, COMPLEX,
-    # FILTER among Excel's, STR / REPR / LIST among made-up ones: the name lookup of the compiled lambda finds the
-    # builtin, so the cell evaluates to a Python object (TYPE(1) = <class 'int'>) instead of raising UnknownFunction
+    # =STR(A1) (not an Excel function) evaluates Python's str(): the generated code itself uses str(), so the
+    # builtin stays visible to the compiled lambda.  Every other builtin name (TYPE, COMPLEX, FILTER, REPR ...)
+    # was repaired in /repo 4cc3eeb and is reported again if it returns.
     args = case.get('args') or []
     return case.get('call') == 'fault' and len(args) >= 3 and args[1] in ('unimplemented', 'unknown-name') \
         and is_builtin_name(args[2]) and case.get('phase') in ('retry1', 'retry2', 'retry-same')
 
 
 def is_builtin_name(name):
-    import builtins
+    """Since repair 4cc3eeb the compiled lambda sees one Python builtin only: str (the generated code uses it)."""
     name = name.lower()
     if name.startswith('_xlfn.'):
         name = name[6:]
-    return hasattr(builtins, name.replace('.', '_'))
+    return name.replace('.', '_') == 'str'
 
 
 def descendants(wb, a):
